@@ -145,7 +145,7 @@ func runC16(t *testing.T, spec RunSpec) (res RunResult) {
 		maxPool := []int{0, 1, 3}[ch.Choose(simrt.SCfg, 3)]
 		inflight := []int{1, 2, 3, 8}[ch.Choose(simrt.SCfg, 4)]
 		timeout := []time.Duration{20 * time.Millisecond, 200 * time.Millisecond, 2 * time.Second}[ch.Choose(simrt.SCfg, 3)]
-		newTime := ch.Choose(simrt.SCfg, 2) == 1
+		timeMode := ch.Choose(simrt.SCfg, 4) // msgpack time format: 0 all old, 1 all new, 2/3 mixed (a rolling upgrade), starting with old / new
 		callers := 1 + ch.Choose(simrt.SCfg, 4)
 		perCaller := 2 + ch.Choose(simrt.SCfg, 10)
 		if spec.Thorough {
@@ -162,6 +162,7 @@ func runC16(t *testing.T, spec RunSpec) (res RunResult) {
 		slowConsumer := []int{0, 10, 40}[ch.Choose(simrt.SCfg, 3)] // % of answers delayed beyond the caller's deadline
 		useFastPath := ch.Choose(simrt.SCfg, 2) == 1
 		closeDuring := faulty && ch.Choose(simrt.SCfg, 4) == 0
+		cleanRun := !faulty && slowConsumer == 0 && timeout >= 200*time.Millisecond
 		res.Config = &RunConfig{Profile: "C16", Scenario: "C16", Voters: nTrans, Clients: callers, TransportTimeout: timeout, Pipeline: inflight >= 2,
 			HeartbeatFastPath: useFastPath, MaxAppendEntries: inflight, SnapRetain: maxPool}
 		simrt.Active = sim
@@ -182,7 +183,7 @@ func runC16(t *testing.T, spec RunSpec) (res RunResult) {
 		for i := 0; i < nTrans; i++ {
 			st := sn.listen(fmt.Sprintf("t%d", i))
 			trans = append(trans, raft.NewNetworkTransportWithConfig(&raft.NetworkTransportConfig{Stream: st, MaxPool: maxPool, MaxRPCsInFlight: inflight, Timeout: timeout,
-				Logger: logger, MsgpackUseNewTimeFormat: newTime}))
+				Logger: logger, MsgpackUseNewTimeFormat: timeMode == 1 || (timeMode >= 2 && (i+timeMode)%2 == 1)}))
 		}
 		sent := map[uint64]*ntSent{}
 		seen := map[uint64]*ntSeen{}
@@ -341,6 +342,11 @@ func runC16(t *testing.T, spec RunSpec) (res RunResult) {
 						rec := seen[n]
 						if err != nil {
 							stats.Calls[kind+":err"]++
+							if cleanRun && !strings.Contains(err.Error(), "handler-error-") {
+								// no stream fault, no slow consumer, no Close in this run and a generous time-out: the
+								// exchange has no reason to fail ("every RPC ... reaches the receiving handler")
+								violate("C16/exchange-failed-without-fault", "%s nonce %d from t%d to %s failed with %q although nothing was injected in this run", kind, n, from, target, err)
+							}
 							if rec != nil && rec.err != "" && strings.Contains(err.Error(), "handler-error-") && !strings.Contains(err.Error(), rec.err) {
 								violate("C16/error-of-another-request", "%s nonce %d returned error %q, the handler produced %q for it", kind, n, err, rec.err)
 							}
@@ -485,6 +491,9 @@ func runC16(t *testing.T, spec RunSpec) (res RunResult) {
 							if ferr := f.Error(); ferr != nil {
 								if !strings.Contains(ferr.Error(), "handler-error-") {
 									failedBefore = true // a transport failure, not an answer of the handler
+									if cleanRun && !abandoned {
+										violate("C16/exchange-failed-without-fault", "pipelined AppendEntries nonce %d failed with %q although nothing was injected in this run", order[j], ferr)
+									}
 								}
 								continue
 							}
